@@ -150,6 +150,18 @@ def run(chk):
         cases.append(c)
         gens.append(g)
 
+    # boundary amounts (machine-word edges) x portion vectors whose numerators/denominators are small and large
+    import gen_exec
+    bvecs = [[Fraction(3, 4), Fraction(1, 4)], [Fraction(63, 100), None], [Fraction(1, 3), Fraction(1, 3), Fraction(1, 3)],
+             [Fraction(2, 3), None], [Fraction(999, 1000), Fraction(1, 1000)], [Fraction(1, 7), Fraction(6, 7)],
+             [Fraction(2 ** 31 - 1, 2 ** 31), None], [Fraction(1, 2 ** 33), None], [Fraction(7, 8), Fraction(1, 16), None]]
+    for n in gen_exec.boundary_ints():
+        for qs in bvecs:
+            c, g = mk_case(len(cases), n, list(qs), qs[-1] is None, "dst" if len(cases) % 2 else "src",
+                           var_idx=(0 if len(cases) % 3 == 0 else None), style=len(cases) % 3)
+            cases.append(c)
+            gens.append(g)
+
     gos = runner.run_go(cases)
     models = P.run_model(cases, gos)
     # the model's allotParts against independent rational arithmetic as well
